@@ -87,4 +87,11 @@ CHECKS["C04"] = {
   "design_ref": "DESIGN.md §5 C04",
   "note": "MD5 uninterpreted in the spec (interpreted by python hashlib + RFC 1321 transcription). Guarded hook: EPMD port override. Real time with a 250 ms handshake timeout.",
 }
+CHECKS["C16"] = {
+  "level": "model_checking",
+  "technique": "TLA+ spec of the allocators with one action per atomic step (PidAlloc.tla) model-checked by TLC over all interleavings; real allocator executed under a deterministic thread scheduler (guarded sync points, lock probe) on enumerated, random and adversarial (weakened-spec counterexample) schedules; recorded traces validated by TLC (Trace_PidAlloc.tla)",
+  "text": "TLC explores every interleaving of 2-3 concurrent allocate() calls from the start, the id wrap and the serial wrap (scaled constants) and of two make_reference calls, and finds the duplicate-pid schedule when the mutex is not enforced. That schedule, every interleaving of two allocations (sampled in the quick tier) and seeded random schedules of 2-4 threads are forced on the real PidAllocator / Node::make_reference at the real wrap positions (2^20 ids, 2^32 serials, u32 counter); TLC then accepts the recorded trace as a behaviour of the spec with Unique, CreationInForce and RefUnique checked in every state, falling back to the lock-free spec to separate drift from a property violation.",
+  "design_ref": "DESIGN.md §5 C16, §2.4",
+  "note": "Interleavings are controlled only at the guarded hook points (one per atomic step); preemption between two hooks is not explored. Serials / words logged relative to their start value (bijection) because TLC integers are 32-bit.",
+}
 NOT_APPLICABLE = {}
